@@ -8,7 +8,7 @@ TB = "Trusted base: go/types + go/ssa (x/tools v0.29.0) represent the source fai
 
 P = {
  "C01": dict(tech="path-sensitive provenance analysis on go/ssa (pathwalk) + who-may-call scans",
-   text="Decides, for every path of ValidateEncodedResponse with validation enabled, where each decoded Response/Assertion came from: the element returned by a successful dsig Validate, or (unsigned root) a header-only decode with both assertion lists reset and appends only of freshly allocated, individually verified direct children; only ErrMissingSignature at the root continues; parseResponse screens the very bytes it parsed into a document created for that attempt; both traversal handlers (Assertion, EncryptedAssertion) demand a direct child of the processed root; the validation context is built per call over sp.IDPCertificateStore / sp.Clock; the header is decoded before any tree mutation. Holds for all inputs because it is a property of every control-flow path, not of sampled documents.",
+   text="Decides, for every path of ValidateEncodedResponse with validation enabled, where each decoded Response/Assertion came from: the element returned by a successful dsig Validate, or (unsigned root) a header-only decode with both assertion lists reset and appends only of freshly allocated, individually verified direct children; only ErrMissingSignature at the root continues; parseResponse screens the very bytes it parsed into a document created for that attempt; both traversal handlers (Assertion, EncryptedAssertion) demand a direct child of the processed root; the validation context is built per call over sp.IDPCertificateStore / sp.Clock; the header is decoded before any tree mutation. Holds for all inputs because it is a property of every control-flow path, not of sampled documents. No traversal handler ends the walk early (etreeutils.ErrTraversalHalted) on an accepting path.",
    note="Not decided: correctness of dsig.Validate itself (contract, audited by shape in the thorough tier), parser differentials beyond the round-trip screen, ID-collision handling inside goxmldsig. " + TB, ref="DESIGN.md §3 C01"),
  "C02": dict(tech="who-may-construct / receiver scans + path-sensitive error-discipline analysis",
    text="Every validation context is built in validationContext() over sp.IDPCertificateStore with ctx.Clock = sp.Clock, every Validate receiver comes from it, and at all four verify sites the only non-fatal error is ErrMissingSignature at a root site, whose continuation leaves the trust flag constant false. The trust store is read-only for the library (no store / append / mutating call reaches sp.IDPCertificateStore or what it hands out).",
@@ -23,13 +23,13 @@ P = {
    text="For each time decision the guard is evaluated over now<b, now=b, now>b on all paths: expiry rejects on = and >, InvalidTime from NotBefore on < only and from NotOnOrAfter on = and >; operands are sp.Clock.Now() and time.Parse(RFC3339, field) unmodified; missing/unparsable bounds are typed errors; no wall-clock call exists in library scope (positive control). Every verified assertion is decoded into a fresh object, so each assertion's bounds are its own.",
    note="Not decided: time.Parse's own handling of offsets and fractions (std contract). " + TB, ref="DESIGN.md §3 C05"),
  "C06": dict(tech="loop-to-quantifier extraction on SSA paths; exact-comparison and accumulate-loop rules",
-   text="NotInAudience is stored exactly on generic outer iterations whose inner loop over that restriction's Audiences is exhausted without an exact == match, never with zero restrictions; OneTimeUse and ProxyRestriction mirror presence, Count and the audience list in order. Every verified assertion is decoded into a fresh object; no allocation while computing the warnings is sized by a signed value.",
+   text="NotInAudience is stored exactly on generic outer iterations whose inner loop over that restriction's Audiences is exhausted without an exact == match, never with zero restrictions; OneTimeUse and ProxyRestriction mirror presence, Count and the audience list in order. Every verified assertion is decoded into a fresh object; no allocation while computing the warnings is sized by a signed value. A store to NotInAudience inside the loop over the restrictions stores true or the loop-carried value (restrictions are conjunctive: a later or matching restriction never clears the warning).",
    note="String equality semantics are Go's; nothing else assumed beyond the trusted base. " + TB, ref="DESIGN.md §3 C06"),
  "C07": dict(tech="value-flow and event-order analysis on SSA paths; truth tables for the certificate window",
    text="Decrypted plaintext only re-enters the tree (parseResponse -> Root -> AddChild on the processed element); decryption precedes the verifying traversal over the same root; the EncryptedAssertion handler demands a direct child and the whole-tree traversal runs before every successful return; every path to an RSA unwrap has the recipient-certificate guard on the decoded EncryptedKey struct; getDecryptCert validates the returned certificate's leaf with the closed window on the SP clock on every accepting path and returns a certificate built in that call (no memoised value). The xmlenc fields the decrypting code reads decode from the element paths it assumes, matched by local name without namespace restriction (schema table).",
    note="Not decided: confidentiality / malleability of CBC, RSA mathematics. " + TB, ref="DESIGN.md §3 C07"),
  "C09": dict(tech="per-instruction panic obligations (bounds via linear path facts, nil-ness, preconditions) over the call-graph cone",
-   text="For every module function reachable from the 6 inbound entry points and 3 decrypt routines, every index, slice, pointer dereference, interface call, map update, division, explicit panic and precondition-bearing std call is discharged on every path; every return of the entry points yields exactly one of (non-nil result, non-nil error).",
+   text="For every module function reachable from the 6 inbound entry points and 3 decrypt routines, every index, slice, pointer dereference, interface call, map update, division, explicit panic and precondition-bearing std call is discharged on every path; every return of the entry points yields exactly one of (non-nil result, non-nil error). Calls through function values (map entries, fields) need a non-nil proof (positive control nilcall).",
    note="Not decided: panics inside dependencies/std, stack exhaustion, nil-vs-empty []byte from AEAD.Open; pointer parameters of exported functions are assumed non-nil (the property quantifies over strings). " + TB, ref="DESIGN.md §3 C09"),
  "C10": dict(tech="guard inventory + provenance/flag typestate on the logout validators; XMLName tag table; sibling skeleton diff",
    text="Both logout validators carry Version, Destination-vs-SLO-URL, Issuer and (responses) Success checks with typed errors on every accepting path; fatal verification errors; decode from the verified root (or raw root on the missing-signature continuation) with flag <=> verified root and false under skip; root structs have distinct tagged XMLNames; the two validators agree path class by path class.",
@@ -65,7 +65,7 @@ P = {
    text="Every ID attribute is a constant NCName-start prefix + String() of a uuid.NewV4() called in the same builder activation, held in attribute storage the element owns; NewV4 fills all 16 bytes of a fresh array from crypto/rand with the error fatal; version/variant transforms are correct for all 256 byte values and no other byte is overwritten; String() is the 8-4-4-4-12 lower-case hex layout.",
    note="Not decided: non-repetition (a probabilistic consequence of 122 random bits, not a code shape). " + TB, ref="DESIGN.md §3 C18"),
  "C20": dict(tech="sibling struct-tag comparison, decode-target type comparison, value-flow rules on the pre-decoders",
-   text="STRUCTURAL PART ONLY: every field of UnverifiedBaseResponse has the identical xml tag and type in Response; the logout pre-decoder and full validation fill the same type; both pre-decoders decode the base64-decoded input via maybeDeflate with the 5 MiB default into an object allocated inside each attempt and return the successful attempt's object; no library code writes a header field (or a field of the Issuer object) after decoding; on the unsigned-root path the header is decoded before the tree is modified; the pre-decoders' decoder input is the same normal form (etree re-serialisation) the validators decode — violated on the pinned tree, recorded as known finding F5 (two KNOWN-FINDING lines, exit 0).",
+   text="STRUCTURAL PART ONLY: every field of UnverifiedBaseResponse has the identical xml tag and type in Response; the logout pre-decoder and full validation fill the same type; both pre-decoders decode the base64-decoded input via maybeDeflate with the 5 MiB default into an object allocated inside each attempt and return the successful attempt's object; no library code writes a header field (or a field of the Issuer object) after decoding; on the unsigned-root path the header is decoded before the tree is modified; the pre-decoders' decoder input is the same normal form (etree re-serialisation) the validators decode — violated on the pinned tree, recorded as known finding F5 (two KNOWN-FINDING lines, exit 0). On every accepting path of the validating entry points the returned object is the product of exactly one xml.Unmarshal whose error is nil on the path.",
    note="Explicitly NOT decided: that encoding/xml on the pre-decoder's input and on the re-serialised (canonicalised) verified tree select the same attribute / Issuer for documents with duplicates or shadowing (parser behaviour on adversarial inputs; attribute order under canonicalisation). Three concrete disagreements caused by decoding raw octets are known (F5). " + TB, ref="DESIGN.md §3 C20"),
 }
 
